@@ -13,12 +13,12 @@ RULE = ('geodetic inputs lat -90..90 (exactly 0, +-0.0, +-90, +-1e-12), lon -360
         'random ellipsoids, float and angle-object arguments, functional and CoordGeo/CoordCart API: llh2xyz against the closed '
         'form (prime-vertical radius of that ellipsoid) within 1 um; Cartesian inputs generated from geodetic ones and directly in '
         'all octants with distance from the axis 1e-9..4e7 m: xyz2llh result mapped back by the closed form within 0.02 mm, '
-        'longitude in [-180,180].  distinct = ellipsoid x |lat| class x height decade x axis-distance decade x argument type x api')
+        'longitude in [-180,180].  3 % of the cases are preceded by calls the property does not speak about (latitudes beyond the poles, NaN, inf, strings, None, the geocentre): not judged, exceptions swallowed, the judged call after them must be as right as ever.  distinct = ellipsoid x |lat| class x height decade x axis-distance decade x argument type x api')
 ASSUMPTIONS = ['closed form x=(nu+h)cos(lat)cos(lon), y=(nu+h)cos(lat)sin(lon), z=(nu(1-e^2)+h)sin(lat), nu=a/sqrt(1-e^2 sin^2 lat), '
                'evaluated in float64 with exact quadrant handling (checked against mpmath on a sample each shard)']
 N = {'quick': 4000, 'thorough': 60000}
 SHARDS = {'quick': 16, 'thorough': 32}
-REQUIRED_COUNTERS = ['alias_sequences', 'branch:llh2xyz-equator-test', 'forward_judged', 'inverse_judged', 'equator_exact', 'pole_exact', 'near_axis']
+REQUIRED_COUNTERS = ['unjudged_calls_before_a_judged_one', 'alias_sequences', 'branch:llh2xyz-equator-test', 'forward_judged', 'inverse_judged', 'equator_exact', 'pole_exact', 'near_axis']
 
 
 def plan(tier, seed):
@@ -127,7 +127,22 @@ def _dec(v):
     return int(math.floor(math.log10(abs(v)))) if v else -99
 
 
+def gen_unjudged_calls(rnd):
+    out = []
+    for _ in range(rnd.choice([1, 1, 2])):
+        ell = rnd.choice(['grs80', 'ans', 'wgs84', [6378200.0, 299.5]])
+        if rnd.random() < 0.5:
+            out.append({'fn': 'llh2xyz', 'args': [rnd.choice([95.0, -91.0, float('nan'), 'x', None, 1e308]), rnd.choice([400.0, float('nan'), 10.0]),
+                                                  rnd.choice([0.0, float('inf'), 'h', -7e6])], 'ell': ell})
+        else:
+            out.append({'fn': 'xyz2llh', 'args': [rnd.choice([0.0, float('nan'), 'x', 1e308, 3.0]), rnd.choice([0.0, float('nan'), 4.0]),
+                                                  rnd.choice([0.0, 6.4e6, float('inf'), -6.3e6])], 'ell': ell})
+    return out
+
+
 def judge(ns, ctx, case):
+    for call in case.get('before') or ():
+        core.unjudged(ctx, getattr(ns.convert, call['fn']), *call['args'], tmwork.ell_obj(ns, call['ell']))
     ell = tmwork.ell_obj(ns, case['ell'])
     a, invf = tmwork.ell_published(case['ell'])
     en = case['ell'] if isinstance(case['ell'], str) else 'custom-ell'
@@ -233,6 +248,8 @@ def run_shard(spec, ctx):
     try:
         for i in range(spec['n']):
             case = gen_case(rnd)
+            if rnd.random() < 0.03:
+                case['before'] = gen_unjudged_calls(rnd)
             if i < 2:
                 ctx.sample(case)
             judge(ns, ctx, case)
